@@ -468,6 +468,48 @@ def r4_regeneration_source(repo=None):
                         "for a data file and regeneration gives up if it holds none: the newest sub-directory of a live channel (only the "
                         "`tmp.` file being written) or one left by a killed or failed writer makes regeneration fail although finalized, "
                         "self-describing files sit in the neighbouring sub-directories", line=a.lineno)
+    # 'from any data file': once a data file is found regeneration copies what it says.  A refusal (raise) that depends on what
+    # the attributes of data files *contain* - a cross-check between files - fails for a channel written by more than one session
+    # (uuid, start time differ from file to file by definition).  Values derived from `<file>[...].attrs`, def-use closure.
+    derived = set()
+    changed = True
+    while changed:
+        changed = False
+        for n in ast.walk(fn):
+            tg, val = None, None
+            if isinstance(n, ast.Assign):
+                tg, val = n.targets, n.value
+            elif isinstance(n, ast.For):
+                tg, val = [n.target], n.iter
+            elif isinstance(n, ast.withitem) and n.optional_vars is not None:
+                continue
+            if tg is None:
+                continue
+            src = any((isinstance(x, ast.Attribute) and x.attr == "attrs") or (isinstance(x, ast.Name) and x.id in derived) for x in ast.walk(val))
+            if src:
+                for t in tg:
+                    for x in ast.walk(t):
+                        if isinstance(x, ast.Name) and x.id not in derived:
+                            derived.add(x.id)
+                            changed = True
+    n_raise = 0
+    for rs in [x for x in ast.walk(fn) if isinstance(x, ast.Raise)]:
+        n_raise += 1
+        conds = []
+        c_, p_ = rs, parents.get(rs)
+        while p_ is not None and p_ is not fn:
+            if isinstance(p_, (ast.If, ast.While)) and c_ is not p_.test:
+                conds.append(p_.test)
+            c_, p_ = p_, parents.get(p_)
+        dep = [t for t in conds if any((isinstance(x, ast.Name) and x.id in derived) or (isinstance(x, ast.Attribute) and x.attr == "attrs") for x in ast.walk(t))]
+        site = "%s:%s %s `%s`" % (m.rel, rs.lineno, q, norm(ast.unparse(rs))[:50])
+        if dep:
+            r.violation(m.rel, q, "%s under `%s`" % (norm(ast.unparse(rs))[:40], norm(ast.unparse(dep[0]))[:60]), "regeneration gives up depending on "
+                        "what the attributes of the data files contain: the properties can no longer be regenerated 'from any data file' - "
+                        "files of one channel legitimately differ in their per-session attributes (uuid, start time) and per-file ones "
+                        "(sequence number, creation time), so a channel recorded in more than one session is refused", line=rs.lineno)
+        else:
+            r.ok(site, "does not depend on the content of a data file's attributes")
     r.guard(3)
     return r
 
@@ -789,8 +831,178 @@ def r8_session_timestamp_exact(repo=None):
     return r
 
 
+def r10_later_rows_start_after_the_first_sample(repo=None):
+    """'strictly increasing sample indices ... never describes overlapping blocks': the first row a call stores in a file (or the
+    rows the open file already has) describes N = next_global_sample, the first sample this call writes to the file.  A row for a
+    later block of the call (i > 0, block start S) keeps the index strictly increasing only if S > N.  The quantities are touched
+    through comparisons only, so the path condition of the row store is evaluated for every weak ordering of (N, P, S) - P the
+    sample at which the previous block ends, prev_sample + (this_index - prev_index) - that respects the validated input fact
+    S >= P (the "indices advancing faster than global index" rejection, looked up in the function): for every ordering with
+    S <= N the condition must be false, whatever the other atoms are.  Atoms comparing the block's data index with
+    samples_written follow the same ordering (the map data index -> sample is strictly increasing and sends samples_written to
+    N).  Variables are recognised by role (read from global_index_arr / data_index_arr, copied at the end of the loop)."""
+    import itertools
+    r = Rule("C06.R10", "an index row for a later block is stored only if the block starts after the first sample this call writes to the file")
+    tu = cfront.lib(repo)
+    F = "digital_rf_create_rf_data_index"
+    fn = tu.fn(F)
+    params = [p.name for p in fn.children if p.kind == "ParmVarDecl"]
+    for need in ("next_global_sample", "samples_written", "global_index_arr", "data_index_arr"):
+        if need not in params:
+            raise AnalysisError("%s: parameter `%s` not found" % (F, need))
+    loops = [n for n in fn.find("ForStmt")]
+    if len(loops) != 2:
+        raise AnalysisError("%s: expected 2 loops over the block description, found %d" % (F, len(loops)))
+    fill = loops[1]
+    roles = {}
+    stores = [(path, node, rhs, kind) for path, node, rhs, kind in clib.stores(fn) if path and kind == "=" and rhs is not None and re.match(r"^\w+$", path)]
+    for path, node, rhs, kind in stores:
+        t = rhs.strip(casts=True)
+        if t.kind == "ArraySubscriptExpr":
+            base = t.children[0].strip(casts=True).path()
+            if base == "global_index_arr":
+                roles.setdefault(path, set()).add("<S>")
+            elif base == "data_index_arr":
+                roles.setdefault(path, set()).add("<I>")
+    for path, node, rhs, kind in stores:
+        src = rhs.strip(casts=True).path()
+        if src in roles and path not in roles:
+            roles.setdefault(path, set()).add({"<S>": "<PS>", "<I>": "<PI>"}.get(next(iter(roles[src])), "?"))
+    role = {k: next(iter(v)) for k, v in roles.items() if len(v) == 1 and "?" not in v}
+    for need in ("<S>", "<I>", "<PS>", "<PI>"):
+        if need not in role.values():
+            raise AnalysisError("%s: the local in the role %s (block start / data index / their copies for the next iteration) was not found" % (F, need))
+
+    def lf(e):
+        t = e.strip(casts=True)
+        if t.kind == "ArraySubscriptExpr":
+            base = t.children[0].strip(casts=True).path()
+            if base == "global_index_arr":
+                return {"<S>": 1}
+            if base == "data_index_arr":
+                return {"<I>": 1}
+        out = clib.linform(e)
+        if out is None:
+            return None
+        res = {}
+        for k, v in out.items():
+            kk = role.get(k, k)
+            res[kk] = res.get(kk, 0) + v
+        return {k: v for k, v in res.items() if v != 0}
+    SN = {"<S>": 1, "next_global_sample": -1}
+    IW = {"<I>": 1, "samples_written": -1}
+    NP = {"next_global_sample": 1, "<PS>": -1, "<I>": -1, "<PI>": 1}
+    SP = {"<S>": 1, "<PS>": -1, "<I>": -1, "<PI>": 1}
+    PAIRS = ((SN, ("S", "N")), (IW, ("S", "N")), (NP, ("N", "P")), (SP, ("S", "P")))
+
+    def classify(cmp):
+        """(first, second, sign): lhs - rhs == sign * (first - second) for one of the pairs, else None"""
+        a, b = lf(cmp.children[0]), lf(cmp.children[1])
+        if a is None or b is None:
+            return None
+        d = dict(a)
+        for k, v in b.items():
+            d[k] = d.get(k, 0) - v
+        d = {k: v for k, v in d.items() if v != 0}
+        for form, (x, y) in PAIRS:
+            if d == form:
+                return x, y, 1
+            if d == {k: -v for k, v in form.items()}:
+                return x, y, -1
+        return None
+
+    def atom_of(c):
+        """(atom name as cbool names it, (greater, smaller) or ('eq', a, b)) for a classified comparison"""
+        cl = classify(c)
+        if cl is None:
+            return None
+        x, y, o = cl
+        ta, tb = cbool._text(c.children[0].strip(casts=True), {}), cbool._text(c.children[1].strip(casts=True), {})
+        hi, lo = (x, y) if o == 1 else (y, x)          # lhs > rhs  <=>  hi > lo
+        if c.opcode in (">", "<="):
+            return "%s>%s" % (ta, tb), ("gt", hi, lo)
+        if c.opcode in ("<", ">="):
+            return "%s>%s" % (tb, ta), ("gt", lo, hi)
+        u, v = sorted([ta, tb])
+        return "%s==%s" % (u, v), ("eq", x, y)
+    # the validated input fact S >= P: a test whose true side leaves the function and that is true exactly when P > S
+    fact = None
+    for st in fn.find("IfStmt"):
+        # the true side leaves: a return, or (the test sits in an inlined static helper) a non-zero result and a jump to its end
+        leaves = any(x.kind == "ReturnStmt" for x in st.children[1].walk()) or (
+            any(x.kind == "GotoStmt" for x in st.children[1].walk())
+            and any(rhs is not None and rhs.intval() not in (None, 0) for path, node, rhs, kind in clib.stores(st.children[1])))
+        if not leaves:
+            continue
+        for c in st.children[0].walk():
+            if c.kind == "BinaryOperator" and c.opcode in ("<", ">"):
+                at = atom_of(c)
+                if at and at[1][0] == "gt" and (at[1][1], at[1][2]) == ("P", "S"):
+                    fact = st
+    if fact is None:
+        raise AnalysisError("%s: the rejection of a block description that advances faster in data than in samples (which gives S >= P) "
+                            "was not found: the ordering argument has no premise" % F)
+    sites = []
+    for path, node, rhs, kind in clib.stores(fill):
+        if kind != "=" or rhs is None or path is None or re.match(r"^\w+$", path):
+            continue
+        v = lf(rhs)
+        if v and v.get("<S>") == 1:
+            sites.append((path, node))
+    if not sites:
+        raise AnalysisError("%s: no store of the block start into the returned rows found in the fill loop" % F)
+    # weak orderings of (N, P, S) as rank triples
+    orders = sorted({tuple(rk) for rk in itertools.product(range(3), repeat=3)
+                     if set(rk) == set(range(len(set(rk))))})
+    for path, node in sites:
+        sem = {}
+        for a in node.ancestors():
+            if a is fill:
+                break
+            if a.kind in ("IfStmt", "ConditionalOperator"):
+                for c in a.children[0].walk():
+                    if c.kind == "BinaryOperator" and c.opcode in ("<", ">", "<=", ">=", "==", "!="):
+                        at = atom_of(c)
+                        if at:
+                            sem[at[0]] = at[1]
+        f = cbool.path_condition(node, fill)
+        names = sorted(cbool.atoms(f))
+        free = [n for n in names if n not in sem]
+        site = "%s:%s %s store `%s`" % (LIB, node.line, F, norm(node.nsrc)[:60])
+        if not any(set(m_[1:]) & {"N"} for m_ in sem.values()):
+            raise AnalysisError("%s: the condition %s of the row store compares nothing this rule can order against the first sample "
+                                "written to the file: not decided" % (F, cbool.show(f)))
+        if len(free) > 12:
+            raise AnalysisError("%s: row condition too large" % F)
+        bad = None
+        for rk in orders:
+            rank = dict(zip(("N", "P", "S"), rk))
+            if rank["S"] < rank["P"] or rank["S"] > rank["N"]:
+                continue        # excluded by the validated fact / not a case this rule forbids
+            for bits in itertools.product((False, True), repeat=len(free)):
+                val = dict(zip(free, bits))
+                for n_, m_ in sem.items():
+                    val[n_] = (rank[m_[1]] > rank[m_[2]]) if m_[0] == "gt" else (rank[m_[1]] == rank[m_[2]])
+                if cbool.ev(f, val):
+                    bad = (rank, val)
+                    break
+            if bad:
+                break
+        if bad is None:
+            r.ok(site, "condition %s is false whenever the block starts at or before next_global_sample (given S >= end of the previous block, "
+                 "validated at line %d)" % (cbool.show(f), fact.line))
+        else:
+            rank = bad[0]
+            r.violation(LIB, F, "row store `%s` under %s" % (norm(node.nsrc)[:60], cbool.show(f)),
+                        "a row is stored for a later block whose first sample %s next_global_sample, the sample the first row of this "
+                        "call (or the open file's last row) already describes: the file's index gets the same sample twice / is not "
+                        "strictly increasing" % ("equals" if rank["S"] == rank["N"] else "precedes"), line=node.line)
+    r.guard(1)
+    return r
+
+
 def rules(repo=None):
-    return [lambda: r8_session_timestamp_exact(repo), lambda: r1_attribute_tables(repo), lambda: r2_write_once(repo), lambda: r3_metadata_in_every_file(repo),
+    return [lambda: r10_later_rows_start_after_the_first_sample(repo), lambda: r8_session_timestamp_exact(repo), lambda: r1_attribute_tables(repo), lambda: r2_write_once(repo), lambda: r3_metadata_in_every_file(repo),
             lambda: r4_regeneration_source(repo), lambda: r5_index_passes_agree(repo), lambda: r6_capacity_from_window(repo),
             lambda: r7_rows_start_inside_the_file(repo), lambda: r9_only_own_files_published(repo)]
 
